@@ -85,30 +85,213 @@ fn walk_pool(l: &mut L) -> LR<Vec<Option<Vec<u8>>>> {
 	Ok(slots)
 }
 
-fn walk_vti(l: &mut L) -> LR<()> {
-	match l.u8()? {
-		0..=6 => Ok(()),
-		7 | 8 => l.skip(2),
-		t => Err(format!("verification_type_info tag {t}")),
+/// one verification_type_info (JVMS 4.7.4, table 4.7.4-A); returns what it means
+fn walk_vti(l: &mut L) -> LR<String> {
+	Ok(match l.u8()? {
+		0 => "top".into(),
+		1 => "int".into(),
+		2 => "float".into(),
+		3 => "double".into(),
+		4 => "long".into(),
+		5 => "null".into(),
+		6 => "uninit_this".into(),
+		7 => format!("object#{}", l.u16()?),
+		8 => format!("uninit@{}", l.u16()?),
+		t => return Err(format!("verification_type_info tag {t}")),
+	})
+}
+
+fn raw_vti(v: &raw::VerificationTypeInfo) -> String {
+	use raw::VerificationTypeInfo as V;
+	match v {
+		V::Top {} => "top".into(),
+		V::Integer {} => "int".into(),
+		V::Float {} => "float".into(),
+		V::Double {} => "double".into(),
+		V::Long {} => "long".into(),
+		V::Null {} => "null".into(),
+		V::UnintializedThis {} => "uninit_this".into(),
+		V::Object { cpool_index } => format!("object#{cpool_index}"),
+		V::Unintialized { offset } => format!("uninit@{offset}"),
 	}
+}
+
+/// element values met by the file walker since the last `take`, by their JVMS meaning (table 4.7.16.1-A), in file order
+thread_local! {
+	static EV_SEEN: std::cell::RefCell<Vec<&'static str>> = const { std::cell::RefCell::new(Vec::new()) };
 }
 
 fn walk_element_value(l: &mut L, depth: usize) -> LR<()> {
 	if depth > 2000 {
 		return Err("element value too deep".into());
 	}
-	match l.u8()? {
+	let tag = l.u8()?;
+	let meaning = match tag {
+		b'B' => "byte",
+		b'C' => "char",
+		b'D' => "double",
+		b'F' => "float",
+		b'I' => "int",
+		b'J' => "long",
+		b'S' => "short",
+		b'Z' => "boolean",
+		b's' => "String",
+		b'e' => "enum",
+		b'c' => "class",
+		b'@' => "annotation",
+		b'[' => "array",
+		t => return Err(format!("element_value tag {t}")),
+	};
+	EV_SEEN.with(|s| s.borrow_mut().push(meaning));
+	match tag {
 		b'B' | b'C' | b'D' | b'F' | b'I' | b'J' | b'S' | b'Z' | b's' | b'c' => l.skip(2),
 		b'e' => l.skip(4),
 		b'@' => walk_annotation(l, depth + 1),
-		b'[' => {
+		_ => {
 			for _ in 0..l.u16()? {
 				walk_element_value(l, depth + 1)?;
 			}
 			Ok(())
 		}
-		t => Err(format!("element_value tag {t}")),
 	}
+}
+
+/// constant pool entries by their JVMS meaning (table 4.4-B), in file order
+fn file_pool_kinds(bytes: &[u8]) -> LR<Vec<&'static str>> {
+	let mut l = L { b: bytes, p: 8 };
+	let count = l.u16()? as usize;
+	let mut out = Vec::new();
+	let mut slot = 1;
+	while slot < count {
+		let (kind, len, slots) = match l.u8()? {
+			1 => {
+				let n = l.u16()? as usize;
+				("Utf8", n, 1)
+			}
+			3 => ("Integer", 4, 1),
+			4 => ("Float", 4, 1),
+			5 => ("Long", 8, 2),
+			6 => ("Double", 8, 2),
+			7 => ("Class", 2, 1),
+			8 => ("String", 2, 1),
+			9 => ("Fieldref", 4, 1),
+			10 => ("Methodref", 4, 1),
+			11 => ("InterfaceMethodref", 4, 1),
+			12 => ("NameAndType", 4, 1),
+			15 => ("MethodHandle", 3, 1),
+			16 => ("MethodType", 2, 1),
+			17 => ("Dynamic", 4, 1),
+			18 => ("InvokeDynamic", 4, 1),
+			19 => ("Module", 2, 1),
+			20 => ("Package", 2, 1),
+			t => return Err(format!("constant pool tag {t}")),
+		};
+		l.skip(len)?;
+		out.push(kind);
+		slot += slots;
+	}
+	Ok(out)
+}
+
+fn raw_pool_kinds(v: &raw::ClassFile) -> Vec<&'static str> {
+	use raw::CpInfo as C;
+	v.constant_pool
+		.iter()
+		.map(|e| match e {
+			C::Class { .. } => "Class",
+			C::Fieldref { .. } => "Fieldref",
+			C::Methodref { .. } => "Methodref",
+			C::InterfaceMethodref { .. } => "InterfaceMethodref",
+			C::String { .. } => "String",
+			C::Integer { .. } => "Integer",
+			C::Float { .. } => "Float",
+			C::Long { .. } => "Long",
+			C::Double { .. } => "Double",
+			C::NameAndType { .. } => "NameAndType",
+			C::Utf8 { .. } => "Utf8",
+			C::MethodHandle { .. } => "MethodHandle",
+			C::MethodType { .. } => "MethodType",
+			C::Dynamic { .. } => "Dynamic",
+			C::InvokeDynamic { .. } => "InvokeDynamic",
+			C::Module { .. } => "Module",
+			C::Package { .. } => "Package",
+		})
+		.collect()
+}
+
+/// element values of a raw value by the meaning of their variant, in file order
+fn raw_element_values(v: &raw::ClassFile) -> Vec<&'static str> {
+	use raw::ElementValue as E;
+	fn ev(e: &E, out: &mut Vec<&'static str>) {
+		match e {
+			E::Byte { .. } => out.push("byte"),
+			E::Char { .. } => out.push("char"),
+			E::Double { .. } => out.push("double"),
+			E::Float { .. } => out.push("float"),
+			E::Integer { .. } => out.push("int"),
+			E::Long { .. } => out.push("long"),
+			E::Short { .. } => out.push("short"),
+			E::Boolean { .. } => out.push("boolean"),
+			E::String { .. } => out.push("String"),
+			E::Enum { .. } => out.push("enum"),
+			E::Class { .. } => out.push("class"),
+			E::Annotation { annotation_value } => {
+				out.push("annotation");
+				ann(annotation_value, out);
+			}
+			E::Array { values } => {
+				out.push("array");
+				values.iter().for_each(|x| ev(x, out));
+			}
+		}
+	}
+	fn ann(a: &raw::Annotation, out: &mut Vec<&'static str>) {
+		a.element_value_pairs.iter().for_each(|p| ev(&p.value, out));
+	}
+	fn walk(list: &[raw::AttributeInfo], out: &mut Vec<&'static str>) {
+		use raw::AttributeInfo as A;
+		for a in list {
+			match a {
+				A::Code { attributes, .. } => walk(attributes, out),
+				A::Record { components, .. } => components.iter().for_each(|c| walk(&c.attributes, out)),
+				A::RuntimeVisibleAnnotations { annotations, .. } | A::RuntimeInvisibleAnnotations { annotations, .. } => annotations.iter().for_each(|x| ann(x, out)),
+				A::RuntimeVisibleParameterAnnotations { parameter_annotations, .. } | A::RuntimeInvisibleParameterAnnotations { parameter_annotations, .. } => {
+					parameter_annotations.iter().for_each(|p| p.annotations.iter().for_each(|x| ann(x, out)))
+				}
+				A::AnnotationDefault { default_value, .. } => ev(default_value, out),
+				_ => {}
+			}
+		}
+	}
+	let mut out = Vec::new();
+	v.fields.iter().for_each(|f| walk(&f.attributes, &mut out));
+	v.methods.iter().for_each(|f| walk(&f.attributes, &mut out));
+	walk(&v.attributes, &mut out);
+	out
+}
+
+/// tagged unions whose alternatives have the same size (constant pool entries, element values): a reader and a writer that
+/// swap two tags consistently keep every round trip and every length; only the meaning of the bytes differs from the value
+fn tags_agree(v: &raw::ClassFile, bytes: &[u8], obs: &mut Obs) -> PropResult {
+	EV_SEEN.with(|s| s.borrow_mut().clear());
+	let walked = walk_layout(bytes);
+	let file_evs: Vec<&'static str> = EV_SEEN.with(|s| std::mem::take(&mut *s.borrow_mut()));
+	let Ok(file_pool) = file_pool_kinds(bytes) else { return Ok(()) };
+	let value_pool = raw_pool_kinds(v);
+	if value_pool != file_pool {
+		let k = value_pool.iter().zip(file_pool.iter()).position(|(a, b)| a != b).unwrap_or(value_pool.len().min(file_pool.len()));
+		return Err(format!("constant pool entry #{}: the raw value says {:?}, the bytes say {:?} to a JVMS reader", k + 1, value_pool.get(k), file_pool.get(k)));
+	}
+	obs.label("pool_meaning_checked");
+	if walked.is_ok() {
+		let value_evs = raw_element_values(v);
+		if value_evs != file_evs {
+			let k = value_evs.iter().zip(file_evs.iter()).position(|(a, b)| a != b).unwrap_or(value_evs.len().min(file_evs.len()));
+			return Err(format!("element value #{k}: the raw value says {:?}, the bytes say {:?} to a JVMS reader ({} in the value, {} in the file)", value_evs.get(k), file_evs.get(k), value_evs.len(), file_evs.len()));
+		}
+		obs.label_if(!value_evs.is_empty(), "element_value_meaning_checked");
+	}
+	Ok(())
 }
 
 fn walk_annotation(l: &mut L, depth: usize) -> LR<()> {
@@ -157,13 +340,13 @@ fn walk_attribute(name: &str, b: &mut L, pool: &[Option<Vec<u8>>], seen: &mut Ve
 				match b.u8()? {
 					t @ 0..=63 => seen.push(format!("{FRAME}same delta={t}")),
 					t @ 64..=127 => {
-						walk_vti(b)?;
-						seen.push(format!("{FRAME}same_locals_1_stack_item delta={}", t - 64));
+						let v = walk_vti(b)?;
+						seen.push(format!("{FRAME}same_locals_1_stack_item delta={} [{v}]", t - 64));
 					}
 					247 => {
 						let d = b.u16()?;
-						walk_vti(b)?;
-						seen.push(format!("{FRAME}same_locals_1_stack_item_extended delta={d}"));
+						let v = walk_vti(b)?;
+						seen.push(format!("{FRAME}same_locals_1_stack_item_extended delta={d} [{v}]"));
 					}
 					t @ 248..=250 => {
 						let d = b.u16()?;
@@ -175,22 +358,25 @@ fn walk_attribute(name: &str, b: &mut L, pool: &[Option<Vec<u8>>], seen: &mut Ve
 					}
 					t @ 252..=254 => {
 						let d = b.u16()?;
+						let mut vs = Vec::new();
 						for _ in 0..(t - 251) {
-							walk_vti(b)?;
+							vs.push(walk_vti(b)?);
 						}
-						seen.push(format!("{FRAME}append locals={} delta={d}", t - 251));
+						seen.push(format!("{FRAME}append locals={} delta={d} [{}]", t - 251, vs.join(",")));
 					}
 					255 => {
 						let d = b.u16()?;
 						let nl = b.u16()?;
+						let mut vl = Vec::new();
 						for _ in 0..nl {
-							walk_vti(b)?;
+							vl.push(walk_vti(b)?);
 						}
 						let ns = b.u16()?;
+						let mut vs = Vec::new();
 						for _ in 0..ns {
-							walk_vti(b)?;
+							vs.push(walk_vti(b)?);
 						}
-						seen.push(format!("{FRAME}full locals={nl} stack={ns} delta={d}"));
+						seen.push(format!("{FRAME}full locals={nl} stack={ns} delta={d} [{}|{}]", vl.join(","), vs.join(",")));
 					}
 					t => return Err(format!("reserved frame_type {t}")),
 				}
@@ -295,12 +481,18 @@ pub fn raw_frames(v: &raw::ClassFile) -> Vec<String> {
 					for f in entries {
 						out.push(match f {
 							F::SameFrame { offset_delta } => format!("same delta={offset_delta}"),
-							F::SameLocals1StackItemFrame { offset_delta, .. } => format!("same_locals_1_stack_item delta={offset_delta}"),
-							F::SameLocals1StackItemFrameExtended { offset_delta, .. } => format!("same_locals_1_stack_item_extended delta={offset_delta}"),
+							F::SameLocals1StackItemFrame { offset_delta, stack } => format!("same_locals_1_stack_item delta={offset_delta} [{}]", raw_vti(stack)),
+							F::SameLocals1StackItemFrameExtended { offset_delta, stack } => format!("same_locals_1_stack_item_extended delta={offset_delta} [{}]", raw_vti(stack)),
 							F::ChopFrame { k, offset_delta } => format!("chop k={k} delta={offset_delta}"),
 							F::SameFrameExtended { offset_delta } => format!("same_extended delta={offset_delta}"),
-							F::AppendFrame { offset_delta, locals } => format!("append locals={} delta={offset_delta}", locals.len()),
-							F::FullFrame { offset_delta, locals, stack } => format!("full locals={} stack={} delta={offset_delta}", locals.len(), stack.len()),
+							F::AppendFrame { offset_delta, locals } => format!("append locals={} delta={offset_delta} [{}]", locals.len(), locals.iter().map(raw_vti).collect::<Vec<_>>().join(",")),
+							F::FullFrame { offset_delta, locals, stack } => format!(
+								"full locals={} stack={} delta={offset_delta} [{}|{}]",
+								locals.len(),
+								stack.len(),
+								locals.iter().map(raw_vti).collect::<Vec<_>>().join(","),
+								stack.iter().map(raw_vti).collect::<Vec<_>>().join(",")
+							),
 						});
 					}
 				}
@@ -498,6 +690,7 @@ pub fn bytes_roundtrip(bytes: &[u8], obs: &mut Obs) -> PropResult {
 	if let Ok((_, file_frames)) = walk_layout_frames(bytes) {
 		frames_agree(&v, &file_frames, obs)?;
 	}
+	tags_agree(&v, bytes, obs)?;
 	Ok(())
 }
 
@@ -810,7 +1003,7 @@ fn raw_value(case: &RawCase, obs: &mut Obs) -> PropResult {
 	// every count and attribute_length as the JVMS lays them out
 	match walk_layout_frames(&bytes) {
 		Ok((names, file_frames)) => {
-			if let Err(e) = frames_agree(&v, &file_frames, obs) {
+			if let Err(e) = frames_agree(&v, &file_frames, obs).and_then(|_| tags_agree(&v, &bytes, obs)) {
 				// with a Long/Double in the pool the crate numbers entries where the JVMS numbers slots (open finding):
 				// a JVMS reader then resolves attribute_name_index to another name and sees other attributes
 				if has_wide && obs.known("C20-long-double-pool-slots") {
